@@ -120,7 +120,7 @@ PROPS["C06"] = {
     "undecided": ["to_call_info / changers composition theorem", "call-site discovery", "introduce_parameter"],
 }
 PROPS["C04"] = {
-    "sidecars": ["c04_inline.py", "c06_mapping.py"],
+    "sidecars": ["c04_inline.py", "c06_mapping.py", "c07_adding.py"],
     "level": "other",
     "claim": "Proof level for call-site independence and binding: _DefinitionGenerator._calculate_header leaves the per-definition parameter map unchanged (frame "
              "obligation over the heap model: a call site cannot disturb the next), and ArgumentMapping binds each call's arguments as Python does (C06 proof).  "
@@ -150,7 +150,7 @@ PROPS["C09"] = {
     "undecided": ["purity for all requests", "preview text == written text"],
 }
 PROPS["C07"] = {
-    "sidecars": ["c07_selector.py"],
+    "sidecars": ["c07_selector.py", "c07_adding.py"],
     "level": "other",
     "claim": "Proof level for the selection kernel of 'remove unused imports': _OneTimeSelector keeps an import exactly when some dotted prefix of what it binds "
              "is wanted and not yet provided, and then marks every prefix as provided; nothing is ever unselected -- for every name set (loops with early return, "
@@ -179,7 +179,7 @@ PROPS["C19"] = {
     "undecided": ["matcher soundness and completeness for all patterns", "meaning preservation of arbitrary goals"],
 }
 PROPS["C20"] = {
-    "sidecars": ["c20_commenter.py", "c14_worder.py", "c15_holding.py"],
+    "sidecars": ["c20_commenter.py", "c14_worder.py", "c15_holding.py", "c20_assist.py"],
     "level": "exploration",
     "claim": "Mostly bounded: completion at every offset and every line truncation of a fixed module (no internal error, proposals extend the prefix), completeness "
              "probes against hand-listed visible names, go-to-definition on every identifier of the C02 catalogue against the reference binder, scenarios.  "
@@ -198,7 +198,7 @@ PROPS["C03"] = {
     "undecided": ["behavioural equivalence for all programs and inputs", "similar= matching beyond C19"],
 }
 PROPS["C05"] = {
-    "sidecars": ["c05_modname.py", "c07_selector.py"],
+    "sidecars": ["c05_modname.py", "c07_selector.py", "c07_adding.py"],
     "level": "exploration",
     "claim": "Mostly bounded and behavioural (95 move/rename/to-package scenarios executed before and after).  Deductive kernel: libutils.modname computes the dotted name "
              "'own name qualified by every enclosing package folder' for every resource (loop invariant over a recursively specified qual), and the lemma that "
